@@ -1196,4 +1196,74 @@ theorem unfoldQ_eq_unfold {items : List Item} {vals X : List (Int × Rat)} (hnd 
     rw [playItems_eq_playRun, this]
     exact h
 
+
+/-- the section structure of every parsed tune: no section groups at all, or its section annotations
+are those of well-formed blocks that are tiled by its notes, and every group names one of them -/
+theorem parsed_blocks (lines : List Line) (tune : Tune) (h : parseTune id lines = .ok tune)
+    (hpos : ∀ n ∈ tune.notes, n.start < n.end_) (hbk : brokenOK (flatten lines) = true) :
+    tune.groups = [] ∨
+    ∃ bs, tune.sections = blockSections bs 0 ∧ tune.notes = blockNotes bs ∧ BlocksWF bs tune.totalTime ∧
+      BlocksTiled bs tune.totalTime ∧ tune.groups ≠ [] ∧ ∀ g ∈ tune.groups, 0 ≤ g.1 ∧ g.1 < bs.length := by
+  obtain ⟨st, st1, st2, hrun, e1, e2, e3, e4, e5, e6, hexp, hfin, rfl⟩ := parseTune_ok h
+  have hnotes2 : st2.notes = st.notes := by rw [finalizeSections_notes hfin, e1]
+  have hpos' : ∀ n ∈ st.notes, n.start < n.end_ := by
+    intro n hn
+    apply hpos
+    show n ∈ st2.notes
+    rw [hnotes2]; exact hn
+  obtain ⟨p, bs, s, cur, _, hinv⟩ := run_invG (flatten lines).reverse st (by simpa using hrun)
+    hpos' (by simpa using hbk)
+  have hinv1 : InvG st1 p bs s cur := hinv.frame e1 e2 e3 e4 e5
+  rcases finalize_invG hinv1 hexp hfin with ⟨hs, hst2⟩ | ⟨n, hlast, hbs, ⟨hc, rfl⟩ | ⟨hc, rfl⟩⟩
+  · left
+    rw [hst2]
+    have hbs : bs = [] := by
+      rcases hinv1.secs with ⟨_, hb, _⟩ | h1
+      · exact hb
+      · rw [hs] at h1; simp at h1
+    subst hbs
+    cases hgr : st1.groups with
+    | nil => simp [toTune, hgr]
+    | cons g r =>
+      have := hinv1.gids g (by rw [hgr]; simp)
+      simp at this
+      omega
+  · right
+    subst hc
+    have htot : totalTimeOf st1.notes = st1.time := by
+      simp only [totalTimeOf, hlast]; exact hinv1.last hlast
+    have hnotes : st1.notes = blockNotes bs := by rw [hinv1.notes]; simp
+    have hst : s = st1.time := hinv1.curnil rfl
+    obtain ⟨k, hgl⟩ := hinv1.glast hbs
+    have hgne : st1.groups ≠ [] := by
+      intro hg; rw [hg] at hgl; simp at hgl
+    refine ⟨bs, rfl, hnotes, ?_, ?_, hgne, hinv1.gids⟩
+    · show BlocksWF bs (totalTimeOf st1.notes)
+      rw [htot, ← hst]; exact hinv1.wf
+    · show BlocksTiled bs (totalTimeOf st1.notes)
+      rw [htot, ← hst]; exact hinv1.tiled
+  · right
+    have htot : totalTimeOf st1.notes = st1.time := by
+      simp only [totalTimeOf, hlast]; exact hinv1.last hlast
+    have hlt := hinv1.cur_lt hc
+    have hsec : st1.sections = blockSections (bs ++ [(s, cur)]) 0 := by
+      rcases hinv1.secs with ⟨_, hb, _⟩ | h1
+      · exact absurd hb hbs
+      · rw [h1, blockSections_snoc]
+    have hnotes : st1.notes = blockNotes (bs ++ [(s, cur)]) := by rw [hinv1.notes, blockNotes_snoc]
+    refine ⟨bs ++ [(s, cur)], hsec, hnotes, ?_, ?_, by simp [toTune], ?_⟩
+    · show BlocksWF (bs ++ [(s, cur)]) (totalTimeOf st1.notes)
+      rw [htot]; exact BlocksWF_snoc hinv1.wf hlt hinv1.cur_bounds
+    · show BlocksTiled (bs ++ [(s, cur)]) (totalTimeOf st1.notes)
+      rw [htot]; exact BlocksTiled_snoc hinv1.tiled hinv1.ctile hinv1.ctime
+    · intro g hg
+      simp only [toTune] at hg
+      simp only [List.length_append, List.length_cons, List.length_nil]
+      rcases List.mem_append.mp hg with hg | hg
+      · have := hinv1.gids g hg
+        push_cast; omega
+      · simp only [List.mem_singleton] at hg
+        subst hg
+        push_cast; simp
+
 end NSV.C04
